@@ -24,7 +24,9 @@ BASE = 0x1000
 # field must not spill into the opcode)
 BASES = [0x1000, 0x03fffff0, 0x08000000, 0x10000000, 0x40000000]
 FID = {"f": 1, "g": 2, "h": 3, "k": 4, "add": 5}
-VARIANTS = ["plain", "sections", "local", "big", "badfile", "unaligned", "mnemonic", "absjal", "shadow_fwd", "shadow_bwd"]
+# relrev: the entries of .rel.text in decreasing offset order (ELF does not order them); symrev: functions listed in
+# .symtab in the reverse of their order in .text
+VARIANTS = ["plain", "sections", "local", "big", "badfile", "unaligned", "mnemonic", "absjal", "shadow_fwd", "shadow_bwd", "relrev", "symrev"]
 ABSJAL = 0x0c000100          # jal 0x400: a call to a fixed address, no relocation
 CPUS = ["mips", "ps2_ee", "pic32", "mips32"]
 
@@ -62,6 +64,10 @@ def build_files(sc, variant, d, cid):
                     else:
                         word = 0x24020000 + FID[fn["name"]] * 16 + w
                     text += struct.pack(pk, word)
+            if variant == "relrev":
+                relocs = relocs[::-1]
+            if variant == "symrev":
+                funcs = funcs[::-1]
             objs.append(("m%d_%d.o" % (fi, mi), elfobj.build_obj(dict(
                 text=text, funcs=funcs, relocs=relocs, endian=end, local_relocs=local_relocs,
                 local_funcs=[n for n in set(local_funcs)],
